@@ -25,6 +25,8 @@ CLAIMED["C20"] = ("DESIGN.md#c20", "Lean theorems: Time.add/subtract = (t + delt
          "Lean 4 proof over time-of-day model + differential correspondence run")
 CLAIMED["C16"] = ("DESIGN.md#c16", "Lean theorems on proleptic ordinals for every date and every n >= 1: next/previous nearest strictly later/earlier weekday, first_of/last_of/nth_of for month/quarter/year (the code's loops and monthcalendar lookups modelled literally), PendulumException iff the unit holds fewer than n; DateTime-level theorems through DTOps.create, partial where a constructed wall time is skipped (known finding F11 with Lean counterexamples); correspondence 1.5x10^5 ops x 2 backends over all zones; oracle = day-by-day scan with datetime.date",
          "Lean 4 proof over weekday-navigation model + differential correspondence run")
+CLAIMED["C07"] = ("DESIGN.md#c07", "Lean theorems for both parser backends over a recursive-descent model on List Char: parse(render(v)) = v for calendar/ordinal/week dates (years 1..9999), times, date-times with fractions 1-9 digits and offsets up to +-23:59, impossible day/ordinal/week/weekday rejected, exact=True narrowest type, parse inverts isoformat/str/to_iso8601/rfc3339 (atom/w3c to the second); ordinal/week conversion proved through the regenerated helpers and tables; correspondence 6.8x10^5 strings x 2 backends (thorough: every date 1583..9999 x 6 forms); oracle = the value the string was rendered from",
+         "Lean 4 proof over parser model + regenerated calendar helpers, differential correspondence run")
 NA = {}
 def main():
     props = [json.loads(l) for l in open(os.path.join(ROOT, "properties.jsonl"))]
